@@ -15,7 +15,46 @@ static Shape parse_shape(const std::string &t) {
   return Shape(vh::csv_u32(p[0]), vh::to_u32(p[1]));
 }
 
+// what every obtainable Shape must satisfy on its own: canonical form and cached products that are the products they name
+static bool consistent(const Shape &s) {
+  const std::uint32_t d = s.depth();
+  if (d > Shape::MAX_DEPTH) return false;
+  if (d > 0 && s[d - 1] == 1) return false;
+  std::uint64_t v = 1;
+  for (std::uint32_t i = 0; i < d; ++i) { if (s[i] == 0) return false; v *= s[i]; if (v > 0xffffffffull) return false; }
+  for (std::uint32_t i = d; i < Shape::MAX_DEPTH + 2; ++i) if (s[i] != 1) return false;
+  if (s.batch() == 0 || s.volume() != v || static_cast<std::uint64_t>(s.size()) != v * s.batch()) return false;
+  if (v * s.batch() > 0xffffffffull) return false;
+  std::uint64_t lv = 1;
+  for (std::uint32_t i = 0; i <= d; ++i) { if (s.lower_volume(i) != lv) return false; if (i < d) lv *= s[i]; }
+  return true;
+}
+static bool identical(const Shape &a, const Shape &b) {
+  return a == b && !(a != b) && a.depth() == b.depth() && a.volume() == b.volume() && a.size() == b.size()
+      && a.batch() == b.batch() && a.to_string() == b.to_string();
+}
+// copies and moves of a Shape: the destination is the source's value whatever it held before, and the
+// moved-from object is still a Shape in its own right (it can be inspected and reused)
+static bool copies_ok(const Shape &s) {
+  Shape a(s);
+  if (!identical(a, s)) return false;
+  Shape b({7, 11, 1, 3}, 13);
+  b = s;
+  if (!identical(b, s) || !consistent(b)) return false;
+  Shape src(s);
+  Shape c({5, 2}, 3);
+  c = std::move(src);
+  if (!identical(c, s) || !consistent(c) || !consistent(src)) return false;
+  Shape src2(s);
+  Shape d(std::move(src2));
+  if (!identical(d, s) || !consistent(d) || !consistent(src2)) return false;
+  Shape e;
+  e = std::move(c);
+  return identical(e, s) && consistent(c);
+}
+
 static std::string show(const Shape &s) {
+  if (!consistent(s) || !copies_ok(s)) return "ok inconsistent";
   std::ostringstream os;
   os << "ok " << s.to_string() << " v=" << s.volume() << " s=" << s.size();
   return os.str();
@@ -43,12 +82,21 @@ static std::string exec(const std::vector<std::string> &w) {
   if (op == "same_dims" && S == 2 && N == 0) return showb(ss[0].has_same_dims(ss[1]));
   if (op == "loo" && S == 2 && N == 1) return showb(ss[0].has_same_loo_dims(ss[1], ns[0]));
   if (op == "resize_dim" && S == 1 && N == 2) {
+    Shape u = ss[0];
+    try { u.update_dim(ns[0], ns[1]); }
+    catch (const Error &) { if (!identical(u, ss[0]) || !consistent(u)) return "ok inconsistent"; throw; }  // rejected: the object is untouched
     Shape r = ss[0].resize_dim(ns[0], ns[1]);
-    Shape u = ss[0]; u.update_dim(ns[0], ns[1]);
     if (!(r == u) || r.volume() != u.volume()) return "ok inconsistent";
     return show(r);
   }
-  if (op == "resize_batch" && S == 1 && N == 1) return show(ss[0].resize_batch(ns[0]));
+  if (op == "resize_batch" && S == 1 && N == 1) {
+    Shape u = ss[0];
+    try { u.update_batch(ns[0]); }
+    catch (const Error &) { if (!identical(u, ss[0]) || !consistent(u)) return "ok inconsistent"; throw; }
+    Shape r = ss[0].resize_batch(ns[0]);
+    if (!identical(r, u)) return "ok inconsistent";
+    return show(r);
+  }
   if (op == "reshape" && S == 2 && N == 0) return show(shape_ops::reshape(ss[0], ss[1]));
   if (op == "flatten" && S == 1 && N == 0) return show(shape_ops::flatten(ss[0]));
   if (op == "scalar_op" && S == 2 && N == 0) return show(shape_ops::scalar_op(ss[0], ss[1]));
